@@ -10,7 +10,7 @@ RULE = ("C04: every completed operation of every generated program is replayed, 
 
 def run(tier):
     feats = ("spawn", "join", "yield", "atomic", "atomic", "rand", "panic", "mutex", "rwlock", "condvar", "async", "sem")
-    res = run_prog_check("C04", PROPS, tier, ["objects:C04:C03"], features=feats, n_quick=5000, n_thorough=80000, rule=RULE, focus=["mutex", "rwlock", "atomic", "mutex", "rwlock"], focus_n=(2500, 50000))
+    res = run_prog_check("C04", PROPS, tier, ["objects:C04:C03"], features=feats, n_quick=5000, n_thorough=80000, rule=RULE, focus=["mutex", "rwlock", "atomic", "mutex", "rwlock"], focus_n=(2500, 50000), exhaustive=["mutex", "rwlock", "atomic"], exh_n=(50, 500))
     if isinstance(res, int):
         return res
     ctx, cases, mo, io = res
